@@ -618,7 +618,9 @@ type ExprBinOpRef<'a> = (&'a Sp<ast::Expr>, Sp<ast::BinOpKind>, &'a Sp<ast::Expr
 impl JmpKind {
     fn as_binop_cond(&self) -> Option<(Sp<ast::CondKeyword>, Sp<ExprBinOpRef<'_>>)> {
         match *self {
+            // A count jump (`--x > 0`) is not a candidate: its negation `--x <= 0` cannot be compiled back.
             JmpKind::Cond { keyword, cond: sp_pat!(span => ast::Expr::BinOp(ref a, op, ref b)) }
+                if !matches!(a.value, ast::Expr::XcrementOp { .. })
                 => Some((keyword, sp!(span => (a, op, b)))),
 
             _ => None,
